@@ -580,7 +580,14 @@ class Parser:
             self.i += 1
             self.eat(';')
             return ('break', ln)
-        for kw in ('while', 'do', 'continue', 'goto', 'try', 'throw'):
+        if self.at('while'):
+            self.i += 1
+            self.eat('(')
+            c = self.expr()
+            self.eat(')')
+            body = self.stmt()
+            return ('while', c, body, ln)
+        for kw in ('do', 'continue', 'goto', 'try', 'throw'):
             if self.at(kw):
                 raise self.err(f'`{kw}` statement (outside the subset)')
         # `S name;` for a configured struct type S
@@ -655,6 +662,8 @@ def _stmts_return(stmts) -> bool:
             return True
         if k == 'for' and _stmts_return([s[6]]):
             return True
+        if k == 'while' and _stmts_return([s[2]]):
+            return True
     return False
 
 
@@ -672,6 +681,7 @@ class Translator:
         self.repo = None                    # set by translate_target: helpers / constants of the same file are looked up there
         self.aux = []                       # [(lean name, lines)] auxiliary definitions (helpers called by the function), in order
         self.aux_info = {}                  # C name -> dict(lean, params, ret)
+        self.alias = {}                     # local -> accessor path it was initialised with (and never assigned since)
         self.stack = []                     # helpers being translated (recursion is outside the subset)
         self.enums = {}
 
@@ -1030,7 +1040,7 @@ class Translator:
                 while a > 0 and not (toks[a - 1].kind == 'pp' or (toks[a - 1].kind == 'op' and toks[a - 1].text in (';', '{', '}'))):
                     a -= 1
                 head = [x.text for x in toks[a:i]]
-                if 'const' not in head:
+                if 'const' not in head or enclosing_namespaces(toks, i, strict=True) is None:
                     continue
                 j = i + 2
                 while j < len(toks) and toks[j].text != ';':
@@ -1144,6 +1154,8 @@ class Translator:
                     self.assigned([s[3]], env, acc, set(local))
             elif k == 'for':
                 self.assigned([s[6]], env, acc, set(local) | {s[2]})
+            elif k == 'while':
+                self.assigned([s[2]], env, acc, set(local))
             elif k == 'switch':
                 for _, body in s[2]:
                     self.assigned(body, env, acc, set(local))
@@ -1154,16 +1166,50 @@ class Translator:
             return lname(vs[0])
         return '(' + ', '.join(lname(v) for v in vs) + ')'
 
+    @staticmethod
+    def mentions(x, v):
+        if isinstance(x, tuple):
+            if len(x) >= 2 and x[0] == 'var' and x[1] == v:
+                return True
+            return any(Translator.mentions(y, v) for y in x)
+        if isinstance(x, list):
+            return any(Translator.mentions(y, v) for y in x)
+        return False
+
+    def countdown(self, s, rest, env):
+        """`while (v > c) { --v; BODY }` where BODY does not assign `v` and `v` is not used after the loop is the loop
+        `for (v' = v - 1; v' >= c; --v') BODY` (same sequence of values of `v` inside BODY, same number of iterations)"""
+        _, cond, body, ln = s
+        if not (cond[0] == 'bin' and cond[1] in ('>', '>=') and cond[2][0] == 'var' and env.get(cond[2][1]) == 'int'):
+            raise self.err(ln, '`while` loop that is not of the count-down form `while (v > c) { --v; … }` (outside the subset)')
+        v = cond[2][1]
+        stm = body[1] if body[0] == 'block' else [body]
+        first = stm[0] if stm else None
+        if not (first is not None and first[0] == 'assign' and first[1] == '-=' and first[2] == ('var', v) and first[3] == ('int', 1)):
+            raise self.err(ln, f'`while` loop whose body does not start with `--{v};` (outside the subset)')
+        tail = stm[1:]
+        if v in self.assigned(tail, env):
+            raise self.err(ln, f'`while` loop: `{v}` is assigned again in the body (outside the subset)')
+        if self.mentions(rest, v):
+            raise self.err(ln, f'`while` loop: the counter `{v}` is used after the loop (outside the subset)')
+        if self.mentions(cond[3], v):
+            raise self.err(ln, '`while` loop: the bound mentions the counter')
+        bound = cond[3] if cond[1] == '>' else ('bin', '-', cond[3], ('int', 1))
+        return ('for', 'int', v, ('bin', '-', ('var', v), ('int', 1)), ('bin', '>=', ('var', v), bound),
+                [('preinc', '--', ('var', v))], ('block', tail, ln), ln, 'rebind')
+
     def stmts(self, ss, env, k, ind):
         if not ss:
             return k(env, ind)
         s, rest = ss[0], ss[1:]
+        if s[0] == 'while':
+            s = self.countdown(s, rest, env)
         return self.stmt(s, env, lambda env2, ind2: self.stmts(rest, env2, k, ind2), ind)
 
     def stmt(self, s, env, k, ind):
         """Lean term (text, each line indented by `ind`) for `s; <continuation k>`"""
         kind = s[0]
-        ln = s[-1]
+        ln = s[7] if kind == 'for' else s[-1]
         pad = '  ' * ind
         if kind == 'block':
             outer = dict(env)
@@ -1198,6 +1244,8 @@ class Translator:
                         raise self.err(ln, 'initialiser of an element value')
                     env[v] = 'elem'
                     continue
+                if self._path(init) != '?':
+                    self.alias[v] = self._path(init)
                 kd = 'bool' if s[1] == 'bool' and not self.spec.get('bool_as_T') else ('T' if s[1] == 'bool' else s[1])
                 if kd == 'elem':
                     raise self.err(ln, 'declaration of an array element value (outside the subset)')
@@ -1220,7 +1268,9 @@ class Translator:
             tp = self._path(s[2])
             if tp in (self.spec.get('ignored_assign') or {}):
                 want = self.spec['ignored_assign'][tp]
-                if s[1] != '=' or self._path(s[3]) != want:
+                got = self._path(s[3])
+                got = self.alias.get(got, got)
+                if s[1] != '=' or got != want:
                     raise self.err(ln, f'`{tp}` must be assigned `{want}` (it fixes the length of the modelled list)')
                 return k(env, ind)
             if s[2][0] == 'index' and self._path(s[2][1]) in (self.spec.get('list_fields') or {}):
@@ -1232,6 +1282,7 @@ class Translator:
                 val = self.coerce(self.expr(rhs, env, ln), 'int', ln)
                 return f'{pad}let {lname(v)} : List Int := {lname(v)}.set (Int.toNat ({ix})) {self.atom(val)}\n' + k(env, ind)
             v = self.lvalue(s[2], env, ln)
+            self.alias.pop(v, None)
             kd = env[v]
             rhs = s[3]
             if s[1] != '=':
@@ -1296,6 +1347,8 @@ class Translator:
             return '\n'.join(out) + f'\n{pad}else\n{tail}'
         if kind == 'for':
             return self.for_loop(s, env, k, ind)
+        if kind == 'while':
+            raise self.err(ln, '`while` loop in a position where the statements after it are not known (outside the subset)')
         if kind == 'break':
             raise self.err(ln, '`break` outside a switch (outside the subset)')
         raise self.err(ln, f'statement form `{kind}` (outside the subset)')
@@ -1303,11 +1356,11 @@ class Translator:
     in_loop = False
 
     def for_loop(self, s, env, k, ind):
-        _, ik, v, init, cond, steps, body, ln = s
+        _, ik, v, init, cond, steps, body, ln = s[:8]
         pad = '  ' * ind
         if ik != 'int':
             raise self.err(ln, 'loop index of a non-index type')
-        if v in env:
+        if v in env and len(s) == 8:
             raise self.err(ln, f'loop index `{v}` shadows a variable (outside the subset)')
         extra = set(self.spec.get('loop_extra_steps') or [])
         up = None
@@ -1478,7 +1531,7 @@ IDX_MAX = '9223372036854775807'
 # Each target: C file, function name, which definition (`pick`: 'generic' = template<typename T> / plain,
 # 'full' = `template<>` specialisation), Lean name, parameter list [(C name, kind, Lean type)], and options.
 TARGETS = [
-    dict(key='fix_offset', file='mahotas/_filters.h', func='fix_offset', pick='plain', lean='fix_offset',
+    dict(key='fix_offset', file='mahotas/_filters.h', func='fix_offset', pick='plain', lean='fix_offset', with_deps=True,
          params=[('mode', 'int'), ('cc', 'int'), ('len', 'int')], ret_kind='int', flag_const='border_flag_value',
          enum=('mahotas/_filters.h', 'ExtendMode'),
          const_check=('mahotas/_filters.h', 'border_flag_value', ['std', '::', 'numeric_limits', '<', 'npy_intp', '>', '::', 'max', '(', ')']),
@@ -1525,7 +1578,7 @@ TARGETS = [
          ret_kind='bool', raw_params=True, c_param_names=['a', 'b'],
          accessors={'a.y': ('a_y', 'int'), 'a.x': ('a_x', 'int'), 'b.y': ('b_y', 'int'), 'b.x': ('b_x', 'int')}),
     dict(key='at_flat', file='mahotas/numpypp/array.hpp', func='at_flat', pick='plain', lean='at_flat',
-         must_contain=['for'], params=[('p', 'int')],
+         must_contain_any=['for', 'while'], params=[('p', 'int')],
          extra_params=[('carray', 'bool'), ('data', 'ptr'), ('dims', 'list'), ('strides', 'list')],
          ret_kind='addr', ptr_elems=['BaseType'],
          consts={'is_carray_': ('carray', 'bool')},
@@ -1593,6 +1646,8 @@ def pick_function(repo: Path, tg) -> CFunc:
             sel.append(f)
     if tg.get('must_contain'):
         sel = [f for f in sel if all(any(t.text == w for t in f.body_toks) for w in tg['must_contain'])]
+    if tg.get('must_contain_any'):
+        sel = [f for f in sel if any(t.text in tg['must_contain_any'] for t in f.body_toks)]
     if len(sel) != 1:
         raise TranslationError(f'{tg["file"]}: {len(sel)} definitions of `{tg["func"]}` ({want}) found, expected exactly one')
     return sel[0]
@@ -1775,9 +1830,74 @@ def _stale_block(old: str, name: str):
     return m.group(1).rstrip('\n').split('\n') if m else None
 
 
+def enclosing_namespaces(toks, i_start, strict=False):
+    """names of the namespaces (outermost first, '' = anonymous) the token at i_start lies in; with `strict`, None when
+    the token is inside any other kind of braces (a function body, a class)"""
+    stack = []
+    i = 0
+    while i < i_start:
+        t = toks[i]
+        if t.kind == 'id' and t.text == 'namespace':
+            j = i + 1
+            name = ''
+            if toks[j].kind == 'id':
+                name = toks[j].text
+                j += 1
+            if toks[j].text == '{':
+                stack.append(name)
+                i = j + 1
+                continue
+        if t.kind == 'op' and t.text == '{':
+            stack.append(None)
+        elif t.kind == 'op' and t.text == '}' and stack:
+            stack.pop()
+        i += 1
+    if strict and None in stack:
+        return None
+    return [n for n in stack if n is not None]
+
+
+def dependencies(fname: str, src: str, f: CFunc, seen=None) -> list[str]:
+    """C++ text the function needs from its own file to compile stand-alone: the plain helper functions it calls (wrapped
+    in their namespaces, callees first) and the file-scope `const` objects it names"""
+    seen = set() if seen is None else seen
+    out = []
+    toks = f.toks
+    ids = []
+    for k, t in enumerate(f.body_toks):
+        if t.kind == 'id' and t.text not in ids:
+            ids.append(t.text)
+    for name in ids:
+        if name in seen or name == f.name:
+            continue
+        # file-scope constant `const T name = …;`
+        for i, t in enumerate(toks):
+            if t.kind == 'id' and t.text == name and i + 1 < len(toks) and toks[i + 1].text == '=' and not (f.i_start <= i <= f.i_rbrace):
+                a = i
+                while a > 0 and not (toks[a - 1].kind == 'pp' or (toks[a - 1].kind == 'op' and toks[a - 1].text in (';', '{', '}'))):
+                    a -= 1
+                if 'const' in [x.text for x in toks[a:i]] and not any(x.text == '(' for x in toks[a:i]) \
+                        and enclosing_namespaces(toks, i, strict=True) is not None:
+                    j = i
+                    while toks[j].text != ';':
+                        j += 1
+                    seen.add(name)
+                    out.append(src[toks[a].pos:toks[j].end])
+                    break
+        hs = [h for h in find_functions(fname, src, name) if h.template is None and h.i_start != f.i_start]
+        if len(hs) == 1 and name not in seen:
+            seen.add(name)
+            h = hs[0]
+            out += dependencies(fname, src, h, seen)
+            ns = enclosing_namespaces(h.toks, h.i_start)
+            out.append(''.join(f'namespace {n} {{ ' for n in ns) + h.text + ' }' * len(ns))
+    return out
+
+
 def extracted_sources(repo: Path) -> dict:
-    """{target key: dict(text=<C++ text of the function as it stands>, hash=…, enum={name: value} | None)} — what the
-    differential run of harness/foundation/cscalar.py compiles stand-alone; a target that cannot be located is absent"""
+    """{target key: dict(text=<C++ text of the function as it stands>, deps=[text it needs from its file], hash=…,
+    enum=(name, {enumerator: value}) | None)} — what the differential run of harness/foundation/cscalar.py compiles
+    stand-alone; a target that cannot be located is absent"""
     out = {}
     for tg in TARGETS:
         try:
@@ -1785,7 +1905,8 @@ def extracted_sources(repo: Path) -> dict:
             enum = None
             if tg.get('enum'):
                 enum = (tg['enum'][1], parse_enum(tg['enum'][0], (repo / tg['enum'][0]).read_text(), tg['enum'][1]))
-            out[tg['key']] = dict(text=f.text, hash=f.hash, enum=enum, func=tg['func'], lean=tg['lean'])
+            deps = dependencies(tg['file'], f.src, f) if tg.get('with_deps') else []
+            out[tg['key']] = dict(text=f.text, deps=deps, hash=f.hash, enum=enum, func=tg['func'], lean=tg['lean'])
         except TranslationError:
             continue
     return out
